@@ -58,6 +58,11 @@ func Apply(t Target, o *Op) (res StepResult) {
 	case KPathData:
 		var g generate.Generator
 		g.SetDestination(t.Dst)
+		if o.F[0] != 0 {
+			// a power-of-two scale and a lattice translation keep every
+			// coordinate on the lattice
+			g.SetTransform(generate.Scale(o.F[0]), generate.Translate(o.F[1], o.F[2]))
+		}
 		if err := g.SetPathData(o.S, o.U); err != nil {
 			res.Err = err.Error()
 		}
